@@ -37,6 +37,7 @@ def check(ctx):
     ctx.rule("R-C16.1", "no lexer regular expression (master alternation, #line / #pragma triggers, directive sub-patterns) has exponential degree of ambiguity")
     ctx.rule("R-C16.2", "each token is lexed once: _TokenStream.reset only moves the index, _fill only appends, the lexer is re-initialised only by parse()")
     ctx.rule("R-C16.4", "per-token work is bounded by the token: the lexer never copies the rest (or the consumed part) of the whole input - no open-ended slice of the input text")
+    ctx.rule("R-C16.5", "no loop re-processes what earlier iterations built: a loop-carried value is not re-copied (string / list concatenation, deepcopy) nor handed to a helper that walks its whole chain")
     ctx.rule("R-C16.3", "no speculative mark/reset region can re-enter itself through the productions it calls")
     lx = S.module("c_lexer")
     px = S.module("c_parser")
@@ -95,6 +96,86 @@ def check(ctx):
                                   "per token that is quadratic work in the length of the input", file=lx.rel, function=f"CLexer.{mname}", line=n.lineno, construct=S.unparse(n)[:100])
     if n4 < 6:
         raise AnalysisError(f"only {n4} subscripts of the input text found in the lexer (confirmed by reading: >= 8)")
+    # ---- R-C16.5 ---------------------------------------------------------------
+    tx = S.module("ast_transforms")
+    funcs = {}
+    for m_ in (px, lx, tx):
+        for n_, f_ in m_.functions.items():
+            funcs[n_] = (m_, f_)
+        for cn in m_.classes:
+            for n_, f_ in m_.methods(cn).items():
+                funcs[n_] = (m_, f_)
+
+    def chain_walk_param(f_):
+        """indices of parameters of helper f_ from which a `while`/`for` loop walks an attribute chain (x = x.attr) or iterates"""
+        params = [a.arg for a in f_.args.args]
+        origin = {p_: p_ for p_ in params}
+        for a_ in ast.walk(f_):
+            if isinstance(a_, ast.Assign) and len(a_.targets) == 1 and isinstance(a_.targets[0], ast.Name):
+                src = a_.value
+                while isinstance(src, ast.Call) and S.unparse(src.func) == "cast" and len(src.args) == 2:
+                    src = src.args[1]
+                if isinstance(src, ast.Name) and src.id in origin and a_.targets[0].id not in origin:
+                    origin[a_.targets[0].id] = origin[src.id]
+        out = set()
+        for lp in ast.walk(f_):
+            if isinstance(lp, ast.While):
+                for a_ in ast.walk(lp):
+                    if isinstance(a_, ast.Assign) and len(a_.targets) == 1 and isinstance(a_.targets[0], ast.Name) and isinstance(a_.value, ast.Attribute) \
+                            and isinstance(a_.value.value, ast.Name) and a_.value.value.id == a_.targets[0].id and a_.targets[0].id in origin:
+                        out.add(params.index(origin[a_.targets[0].id]))
+        return out
+    n5 = 0
+    seen5 = set()
+    for m_ in (px, lx, tx):
+        for fn in [x for x in ast.walk(m_.tree) if isinstance(x, ast.FunctionDef)]:
+            params = {a.arg for a in fn.args.args}
+            for L in [x for x in ast.walk(fn) if isinstance(x, (ast.While, ast.For))]:
+                for a_ in ast.walk(L):
+                    if not (isinstance(a_, ast.Assign) and len(a_.targets) == 1):
+                        continue
+                    T = S.unparse(a_.targets[0])
+                    root = a_.targets[0]
+                    while isinstance(root, (ast.Attribute, ast.Subscript)):
+                        root = root.value
+                    if not isinstance(root, ast.Name) or not any(S.unparse(x) == T for x in ast.walk(a_.value)):
+                        continue
+                    # loop carried: the root exists before the loop (parameter or assigned above it)
+                    carried = root.id in params or any(isinstance(b, (ast.Assign, ast.AnnAssign)) and b.lineno < L.lineno and any(isinstance(t, ast.Name) and t.id == root.id for t in (b.targets if isinstance(b, ast.Assign) else [b.target])) for b in ast.walk(fn))
+                    if not carried:
+                        continue
+                    rhs = a_.value
+                    kind = None
+                    if isinstance(rhs, ast.BinOp) and isinstance(rhs.op, ast.Add) and not any(isinstance(x, ast.Constant) and isinstance(x.value, (int, float)) for x in (rhs.left, rhs.right)):
+                        kind = "is rebuilt by concatenation with itself (the accumulated text is copied in every iteration)"
+                    elif isinstance(rhs, ast.Call):
+                        name = rhs.func.attr if isinstance(rhs.func, ast.Attribute) else getattr(rhs.func, "id", None)
+                        if name in ("deepcopy", "copy", "list", "tuple", "sorted"):
+                            kind = f"is copied by {name}() in every iteration"
+                        elif name in funcs and not name.startswith("_parse_"):
+                            idxs = chain_walk_param(funcs[name][1])
+                            off = 1 if funcs[name][1].args.args and funcs[name][1].args.args[0].arg == "self" else 0
+                            for i_, arg in enumerate(rhs.args):
+                                if S.unparse(arg) == T and (i_ + off) in idxs:
+                                    kind = f"is handed to {name}(), which walks its whole chain, in every iteration"
+                    n5 += 1
+                    ok = kind is None
+                    key = f"{fn.name}:{T}:{(kind or '').split('(')[0].strip()[:30]}"
+                    ctx.oblige("R-C16.5", f"{fn.name}: loop-carried {T} at line {a_.lineno}", ok, sample={"rule": "R-C16.5", "function": fn.name, "statement": S.unparse(a_)[:80], "verdict": kind or "constant work per iteration"})
+                    if not ok and key not in seen5:
+                        seen5.add(key)
+                        ctx.violation("R-C16.5", f"requadratic:{fn.name}:{T}", f"in {fn.name} the loop-carried `{T}` {kind} (`{S.unparse(a_)[:80]}`): the k-th iteration does work proportional to k, so k repetitions cost ~k^2/2",
+                                      file=m_.rel, function=fn.name, line=a_.lineno, construct=S.unparse(a_)[:160])
+                # deep copies of anything inside a loop
+                for c_ in ast.walk(L):
+                    if isinstance(c_, ast.Call) and S.unparse(c_.func) in ("copy.deepcopy", "deepcopy") and ("deepcopy", fn.name) not in seen5:
+                        seen5.add(("deepcopy", fn.name))
+                        n5 += 1
+                        ctx.oblige("R-C16.5", f"{fn.name}: deepcopy inside a loop", False)
+                        ctx.violation("R-C16.5", f"deepcopy-in-loop:{fn.name}:{S.unparse(c_)[:40]}", f"{fn.name} deep-copies `{S.unparse(c_.args[0])[:50] if c_.args else ''}` inside a loop: nested or repeated constructs are copied again at every level / iteration (work grows quadratically or exponentially with nesting)",
+                                      file=m_.rel, function=fn.name, line=c_.lineno, construct=S.unparse(c_)[:120])
+    if n5 < 10:
+        raise AnalysisError(f"only {n5} loop-carried updates found in the parser, lexer and transforms (confirmed by reading: > 20)")
     # ---- R-C16.2 ---------------------------------------------------------------
     ts = px.methods("_TokenStream")
     for need in ("reset", "mark", "_fill", "next", "peek"):
